@@ -318,7 +318,7 @@ def load_known() -> dict[str, dict]:
 def write_replay(prop: str, name: str, payload: dict) -> str:
     d = VERIF / "replays"
     d.mkdir(exist_ok=True)
-    p = d / f"{prop}_{name}.json"
+    p = d / (f"{prop}_{name}".replace("/", "-").replace(":", "-") + ".json")
     p.write_text(json.dumps(payload, indent=1, sort_keys=True, default=str) + "\n")
     return str(p.relative_to(VERIF))
 
